@@ -80,18 +80,74 @@ def parser_consts(repo, info):
     return '\n'.join(L) + '\n'
 
 
-def runtime_tables(info):
-    """Tables of the running interpreter (the one the library runs under): str.isspace, re \\s."""
+def _runtime_cache(out_dir):
+    """Tables of the running interpreter / lxml (not of the repository): cached by version."""
+    import sys, json
+    try:
+        import lxml.etree as ET
+        lv = ET.__version__ + '/' + '.'.join(map(str, ET.LIBXML_VERSION))
+    except Exception:
+        ET, lv = None, 'none'
+    key = sys.version + '|' + lv
+    path = os.path.join(out_dir, 'runtime_cache.json')
+    try:
+        c = json.load(open(path))
+        if c.get('key') == key:
+            return c
+    except Exception:
+        pass
     import re as _re
-    import sys
-    isspace = [cp for cp in range(sys.maxunicode + 1) if chr(cp).isspace()]
+    c = {'key': key}
+    c['isspace'] = [cp for cp in range(sys.maxunicode + 1) if chr(cp).isspace()]
     ws = _re.compile(r'\s')
-    re_s = [cp for cp in range(sys.maxunicode + 1) if ws.match(chr(cp))]
-    info['runtime'] = {'isspace': isspace, 're_s': re_s}
-    L = ['/-- code points for which the running interpreter\'s `str.isspace` is true -/',
-         'def pyIsSpaceCodes : List Nat := [' + ', '.join(map(str, isspace)) + ']',
-         '/-- code points matched by the running interpreter\'s regular-expression class `\\s` (str patterns) -/',
-         'def pyReSpaceCodes : List Nat := [' + ', '.join(map(str, re_s)) + ']']
+    c['re_s'] = [cp for cp in range(sys.maxunicode + 1) if ws.match(chr(cp))]
+    w = _re.compile(r'\w')
+    c['re_w'] = _ranges([cp for cp in range(sys.maxunicode + 1) if w.match(chr(cp))])
+    start, namec, textok = [], [], []
+    if ET is not None:
+        for cp in range(sys.maxunicode + 1):
+            if 0xD800 <= cp <= 0xDFFF:
+                continue
+            ch = chr(cp)
+            e = ET.Element('a')
+            try:
+                e.set(ch, '')
+                start.append(cp)
+            except ValueError:
+                pass
+            try:
+                e.set('a' + ch, '')
+                namec.append(cp)
+            except ValueError:
+                pass
+            try:
+                e.text = ch
+                textok.append(cp)
+            except ValueError:
+                pass
+    c['name_start'] = _ranges(start)
+    c['name_char'] = _ranges(namec)
+    c['text_ok'] = _ranges(textok)
+    with open(path, 'w') as f:
+        json.dump(c, f)
+    return c
+
+
+def runtime_tables(info, out_dir):
+    """Tables of the running interpreter (the one the library runs under): str.isspace, re whitespace and word classes,
+    and lxml's acceptance of attribute-name and text characters."""
+    c = _runtime_cache(out_dir)
+    info['runtime'] = {'key': c['key'], 'isspace': c['isspace'], 're_s': c['re_s']}
+    L = ["/-- code points for which the running interpreter's `str.isspace` is true -/",
+         'def pyIsSpaceCodes : List Nat := [' + ', '.join(map(str, c['isspace'])) + ']',
+         "/-- code points matched by the running interpreter's regular-expression class `\\s` (str patterns) -/",
+         'def pyReSpaceCodes : List Nat := [' + ', '.join(map(str, c['re_s'])) + ']',
+         '/-- `\\w` of the running interpreter -/',
+         f'def pyWordRanges : List (Nat × Nat) := {lean_ranges(c["re_w"])}',
+         '/-- lxml: characters accepted as first / later character of an attribute name, and in text -/',
+         f'def xmlNameStartRanges : List (Nat × Nat) := {lean_ranges(c["name_start"])}',
+         f'def xmlNameCharRanges : List (Nat × Nat) := {lean_ranges(c["name_char"])}',
+         f'def xmlTextOkRanges : List (Nat × Nat) := {lean_ranges(c["text_ok"])}']
     return '\n'.join(L) + '\n'
 
 
@@ -177,11 +233,70 @@ def xml_consts(repo, info):
     return '\n'.join(L) + '\n'
 
 
-def generate(repo):
+def lean_attr_table(t):
+    """{key: {a: v}} -> Lean List (String × List (String × String))"""
+    return '[' + ', '.join(f'({lean_str(k)}, {lean_pairs(list(v.items()))})' for k, v in t.items()) + ']'
+
+
+def types_consts(repo, info):
+    """Class-level tables of types.py, read from the module itself (imported by path; attribute
+    lookup follows Python's own MRO, so moving a table to a base class is not a change)."""
+    import importlib.util
+    path = os.path.join(repo, 'bluebell', 'types.py')
+    spec = importlib.util.spec_from_file_location('_bluebell_types_under_test', path)
+    T = importlib.util.module_from_spec(spec)
+    spec.loader.exec_module(T)
+    grammar_types = sorted(set(re.findall(r'<(\w+)>', open(os.path.join(repo, 'bluebell', 'akn.peg'), encoding='utf-8').read())))
+    missing = [t for t in grammar_types if not hasattr(T, t)]
+    if missing:
+        raise TranslateError(f'types.py lacks classes used by the grammar: {missing}')
+    roots, mains, blockind, inl, kinds = [], [], [], [], []
+    for t in grammar_types:
+        c = getattr(T, t)
+        kinds.append((t, 'dict' if hasattr(c, 'to_dict') else 'children' if hasattr(c, 'to_children') else 'none'))
+        if issubclass(c, T.DocumentRoot):
+            roots.append((t, c.name, list(c.children), sorted(c.required_children), bool(getattr(c, 'is_root', False))))
+        if issubclass(c, T.MainContentElement):
+            mains.append((t, str(c.name), c.content_element))
+        if issubclass(c, T.BlockIndentElement):
+            blockind.append((t, c.name))
+        if issubclass(c, T.Inline) and not issubclass(c, T.StandardInline):
+            inl.append((t, c.name, dict(c.default_attribs)))
+    info['types'] = {'kinds': kinds, 'roots': roots}
+    L = []
+    L.append('/-- grammar type ↦ has `to_dict` / `to_children` / neither -/')
+    L.append(f'def typeKinds : List (String × String) := {lean_pairs(kinds)}')
+    L.append('/-- document roots: type ↦ (element name, children in order, required children, is_root) -/')
+    L.append('def rootTable : List (String × String × List String × List String × Bool) := ['
+             + ', '.join(f'({lean_str(t)}, {lean_str(n)}, {lean_strs(ch)}, {lean_strs(rq)}, {"true" if ir else "false"})' for t, n, ch, rq, ir in roots) + ']')
+    L.append('def mainContentTable : List (String × String × String) := ['
+             + ', '.join(f'({lean_str(t)}, {lean_str(n)}, {lean_str(ce)})' for t, n, ce in mains) + ']')
+    L.append(f'def blockIndentTable : List (String × String) := {lean_pairs(blockind)}')
+    L.append('def inlineTable : List (String × String × List (String × String)) := ['
+             + ', '.join(f'({lean_str(t)}, {lean_str(n)}, {lean_pairs(list(d.items()))})' for t, n, d in inl) + ']')
+    L.append(f'def hierSynonyms : List (String × String) := {lean_pairs(list(T.HierElement.synonyms.items()))}')
+    L.append(f'def speechSynonyms : List (String × String) := {lean_pairs(list(T.SpeechContainer.synonyms.items()))}')
+    L.append(f'def speechGroupSynonyms : List (String × String) := {lean_pairs(list(T.SpeechGroup.synonyms.items()))}')
+    L.append(f'def tableCellNames : List (String × String) := {lean_pairs(list(T.TableCell.names.items()))}')
+    L.append(f'def stdInlineDefaults : List (String × List (String × String)) := {lean_attr_table(T.StandardInline.default_attribs)}')
+    L.append(f'def hierTypeName : String := {lean_str(T.HierElement.type)}')
+    L.append(f'def speechTypeName : String := {lean_str(T.SpeechContainer.type)}')
+    L.append(f'def escapeRePattern : String := {lean_str(T.ESCAPE_RE.pattern)}')
+    L.append(f'def byNonLettersPattern : String := {lean_str(T.SpeechGroup.non_letters_re.pattern)}')
+    # str.lower / upper on the keyword alphabet is the ASCII map (checked, not assumed)
+    import string
+    ok = all(c.lower() == chr(ord(c) + 32) for c in string.ascii_uppercase) and all(c.upper() == chr(ord(c) - 32) for c in string.ascii_lowercase)
+    L.append(f'def asciiCaseMapOk : Bool := {"true" if ok else "false"}')
+    return '\n'.join(L) + '\n'
+
+
+def generate(repo, out_dir=None):
     info = {}
+    out_dir = out_dir or os.path.join(os.path.dirname(os.path.abspath(__file__)), '..', 'lean', 'Bluebell', 'Gen')
     parts = ['import Bluebell.Peg.Syntax\nnamespace Bluebell\n']
     parts.append(parser_consts(repo, info))
-    parts.append(runtime_tables(info))
+    parts.append(runtime_tables(info, out_dir))
     parts.append(xml_consts(repo, info))
+    parts.append(types_consts(repo, info))
     parts.append('end Bluebell\n')
     return '\n'.join(parts), info
